@@ -166,7 +166,7 @@ claim("C05",
 prop("C10", ["resolve_guards", "name_lookup", "lineage_except", "frame_decls", "resolver_unwraps", "module_names", "lower_ident", "pl_fold", "lower_expr", "type_meet", "ident_kinds", "func_env"],
      select={"func_env": lambda n: n.split(".", 1)[1] in ("MF1", "MF2", "Resolver::materialize_head.safety"), "type_meet": lambda n: n.split(".", 1)[1] in ("IR1", "ST1", "ST2", "VT1") or n.split(".", 1)[1] in ("is_relation.safety", "is_super_type_of.safety", "is_super_type_of_opt.safety", "Resolver::validate_type.safety"),
              "lower_expr": lambda n: n.split(".", 1)[1] in ("LO2", "LO2i", "LT1", "LX1") or n.endswith("lower_expr.safety"),
-             "lineage_except": lambda n: n.split(".", 1)[1] in ("IC1", "IC2", "LE1", "LE2", "LE3", "SH1", "shadow_one.safety", "JL1", "JL2", "join.safety"),
+             "lineage_except": lambda n: n.split(".", 1)[1] in ("IC1", "IC2", "LE1", "LE2", "LE3", "SH1", "shadow_one.safety", "JL1", "JL2", "join.safety", "IR1", "inline_ref.safety"),
              "resolver_unwraps": lambda n: n.split(".", 1)[1] in ("XA1", "WS1", "exclusion_arg.safety", "wildcard_self.safety")},
      not_covered="NS_INFER declarations (what resolve_ident_fallback infers), insert_frame (which columns a frame declares after select / "
                  "aggregate / group), resolve_ident_fallback inference, validate_expr_type (scalar where a relation is required): HashMap-of-Decl recursion; "
